@@ -92,8 +92,145 @@ pub fn replay_precomputed(input: &Value) -> (bool, String) {
     (bad, format!("PRECOMPUTED_HASHES[{i}] {}", if bad { "differs from sha256(01 ‖ canon(i))" } else { "matches" }))
 }
 
+/// Ground obligations for C15 on fixed inputs (closed terms): the cache-assisted verdict equals the plain
+/// aggregate verdict, in particular "never valid if any key is the point at infinity".
+pub fn bls_cache_ground() -> EvalResult {
+    use chia_bls::{aggregate, aggregate_verify, sign, BlsCache, PublicKey, SecretKey, Signature};
+    let mut res = EvalResult { obligations: 0, discharged: 0, failures: vec![], samples: vec![], exhaustive: true };
+    let sk1 = SecretKey::from_seed(&[1u8; 32]);
+    let sk2 = SecretKey::from_seed(&[2u8; 32]);
+    let pk1 = sk1.public_key();
+    let pk2 = sk2.public_key();
+    let inf = PublicKey::default();
+    let s1 = sign(&sk1, b"hello");
+    let s2 = sign(&sk2, b"world");
+    let both = aggregate([&s1, &s2]);
+    let cases: Vec<(&str, Vec<(PublicKey, Vec<u8>)>, Signature, bool)> = vec![
+        ("valid-two-pairs", vec![(pk1, b"hello".to_vec()), (pk2, b"world".to_vec())], both.clone(), true),
+        ("tampered-message", vec![(pk1, b"hellO".to_vec()), (pk2, b"world".to_vec())], both.clone(), false),
+        ("missing-pair", vec![(pk1, b"hello".to_vec())], both.clone(), false),
+        ("empty-list-default-sig", vec![], Signature::default(), true),
+        ("infinity-key-extra-pair", vec![(pk1, b"hello".to_vec()), (inf, b"x".to_vec())], s1.clone(), false),
+        ("infinity-key-only", vec![(inf, b"x".to_vec())], Signature::default(), false),
+    ];
+    for (name, pairs, sig, want) in cases {
+        for warm in [false, true] {
+            res.obligations += 1;
+            let plain = aggregate_verify(&sig, pairs.iter().map(|(p, m)| (p, m.as_slice())));
+            let cache = BlsCache::default();
+            if warm {
+                let _ = cache.aggregate_verify(pairs.iter().map(|(p, m)| (p, m.as_slice())), &sig);
+            }
+            let cached = cache.aggregate_verify(pairs.iter().map(|(p, m)| (p, m.as_slice())), &sig);
+            let ok = plain == want && cached == want;
+            if ok {
+                res.discharged += 1;
+            } else {
+                res.failures.push(json!({"id": format!("bls_cache_ground/{name}/{}", if warm { "warm" } else { "cold" }),
+                    "function": "BlsCache::aggregate_verify",
+                    "message": format!("case {name} ({} cache): aggregate_verify = {plain}, BlsCache::aggregate_verify = {cached}, required verdict = {want}", if warm { "warm" } else { "cold" }),
+                    "clause": "cache-assisted verdict == plain verdict; never valid if any key is the point at infinity",
+                    "cex": {"unit": "eval", "function": "bls_cache_ground", "input": {"case": name, "warm": warm}}}));
+            }
+            if res.samples.len() < 4 {
+                res.samples.push(json!({"obligation": format!("{name}: plain == cached == {want}"), "backend": "native-eval"}));
+            }
+        }
+    }
+    res
+}
+
+pub fn replay_bls(input: &Value) -> (bool, String) {
+    let r = bls_cache_ground();
+    let case = input["case"].as_str().unwrap_or("");
+    let warm = input["warm"].as_bool().unwrap_or(false);
+    for f in &r.failures {
+        if f["cex"]["input"]["case"].as_str() == Some(case) && f["cex"]["input"]["warm"].as_bool() == Some(warm) {
+            return (true, f["message"].as_str().unwrap_or("").to_string());
+        }
+    }
+    (false, format!("case {case} agrees"))
+}
+
+/// Ground obligations for C18 on fixed histories: an operation that returns Ok must leave a blob that passes
+/// its own integrity check and reloads; duplicate keys/hashes must be refused.
+pub fn datalayer_ground() -> EvalResult {
+    use chia_datalayer::{Hash, InsertLocation, KeyId, MerkleBlob, ValueId};
+    use chia_protocol::Bytes32;
+    let mut res = EvalResult { obligations: 0, discharged: 0, failures: vec![], samples: vec![], exhaustive: true };
+    let h = |i: u8| Hash(Bytes32::new([i; 32]));
+    let mut case = |name: &str, f: &dyn Fn() -> Result<(MerkleBlob, bool), String>| {
+        res.obligations += 1;
+        // f returns the blob after the history and whether the last operation reported Ok
+        let verdict = match f() {
+            Err(e) => Err(e),
+            Ok((blob, last_ok)) => {
+                let integrity = blob.check_integrity();
+                let reload = MerkleBlob::new(blob.read_blob().clone());
+                if last_ok && (integrity.is_err() || reload.is_err()) {
+                    Err(format!("last operation returned Ok but check_integrity = {:?}, reload ok = {}", integrity.err().map(|e| e.to_string()), reload.is_ok()))
+                } else { Ok(()) }
+            }
+        };
+        match verdict {
+            Ok(()) => { res.discharged += 1; }
+            Err(msg) => res.failures.push(json!({"id": format!("datalayer_ground/{name}"), "function": name,
+                "message": format!("{name}: {msg}"), "clause": "Ok ==> check_integrity passes and the blob reloads",
+                "cex": {"unit": "eval", "function": "datalayer_ground", "input": {"case": name}}})),
+        }
+        if res.samples.len() < 4 { res.samples.push(json!({"obligation": format!("history {name}: Ok ==> integrity"), "backend": "native-eval"})); }
+    };
+    case("batch_insert_duplicate_key", &|| {
+        let mut b = MerkleBlob::new(vec![]).map_err(|e| e.to_string())?;
+        let items = vec![((KeyId(1), ValueId(1)), h(1)), ((KeyId(2), ValueId(2)), h(2)), ((KeyId(3), ValueId(3)), h(3)),
+                         ((KeyId(3), ValueId(4)), h(4)), ((KeyId(5), ValueId(5)), h(5))];
+        let r = b.batch_insert(items);
+        Ok((b, r.is_ok()))
+    });
+    case("batch_insert_duplicate_hash", &|| {
+        let mut b = MerkleBlob::new(vec![]).map_err(|e| e.to_string())?;
+        let items = vec![((KeyId(1), ValueId(1)), h(1)), ((KeyId(2), ValueId(2)), h(2)), ((KeyId(3), ValueId(3)), h(3)),
+                         ((KeyId(4), ValueId(4)), h(3)), ((KeyId(5), ValueId(5)), h(5))];
+        let r = b.batch_insert(items);
+        Ok((b, r.is_ok()))
+    });
+    case("batch_insert_distinct", &|| {
+        let mut b = MerkleBlob::new(vec![]).map_err(|e| e.to_string())?;
+        let items = (1..=7u8).map(|i| ((KeyId(i as i64), ValueId(i as i64)), h(i))).collect();
+        let r = b.batch_insert(items);
+        Ok((b, r.is_ok()))
+    });
+    case("upsert_to_existing_hash", &|| {
+        let mut b = MerkleBlob::new(vec![]).map_err(|e| e.to_string())?;
+        for i in 1..=3u8 { b.insert(KeyId(i as i64), ValueId(i as i64), &h(i), InsertLocation::Auto {}).map_err(|e| e.to_string())?; }
+        let r = b.upsert(KeyId(1), ValueId(9), &h(2));
+        Ok((b, r.is_ok()))
+    });
+    case("insert_duplicate_key_refused", &|| {
+        let mut b = MerkleBlob::new(vec![]).map_err(|e| e.to_string())?;
+        b.insert(KeyId(1), ValueId(1), &h(1), InsertLocation::Auto {}).map_err(|e| e.to_string())?;
+        let r = b.insert(KeyId(1), ValueId(2), &h(2), InsertLocation::Auto {});
+        if r.is_ok() { return Err("duplicate key accepted by insert".into()); }
+        Ok((b, false))
+    });
+    res
+}
+
+pub fn replay_datalayer(input: &Value) -> (bool, String) {
+    let r = datalayer_ground();
+    let case = input["case"].as_str().unwrap_or("");
+    for f in &r.failures {
+        if f["cex"]["input"]["case"].as_str() == Some(case) {
+            return (true, f["message"].as_str().unwrap_or("").to_string());
+        }
+    }
+    (false, format!("history {case}: holds"))
+}
+
 pub fn run(task: &str) -> Option<EvalResult> {
     match task {
+        "datalayer_ground" => Some(datalayer_ground()),
+        "bls_cache_ground" => Some(bls_cache_ground()),
         "cost_table" => Some(cost_table()),
         "tree_hash_precomputed" => Some(tree_hash_precomputed()),
         _ => None,
